@@ -24,7 +24,7 @@ def ok_parts(f, rv):
     return oks, errs
 
 
-def run(ck):
+def rules(ck, P='C11'):
     f = ck.facts
     i_fid, i_crc, i_len = (field_index(f, CF, n) for n in ('frag_id', 'crc', 'len_pdu_frag'))
     # ------------------------------------------------ continuation calls
@@ -45,7 +45,7 @@ def run(ck):
         g = ghost(w, 'hdr_len')
         for sname, rlen, ctx in oks:
             if part is None or g is None:
-                ck.finding('C11.R2', ENC + 'encap_frag', 'no-header-ghost', 'encap_frag: Ok return without header call')
+                ck.finding(f'{P}.R2', ENC + 'encap_frag', 'no-header-ghost', 'encap_frag: Ok return without header call')
                 continue
             if part[0] == 'IntermediateFragPkt':
                 n_int += 1
@@ -55,23 +55,23 @@ def run(ck):
                 if w.store.entails(le(Lin.c(1), n)):
                     ck.discharged += 1
                 else:
-                    ck.finding('C11.R1', ENC + 'encap_frag', 'empty-intermediate', 'encap_frag: an intermediate packet may carry no payload byte (the receiver refuses it)')
+                    ck.finding(f'{P}.R1', ENC + 'encap_frag', 'empty-intermediate', 'encap_frag: an intermediate packet may carry no payload byte (the receiver refuses it)')
                 # R2 exact advance, id and crc carried over
                 if ctx is None or ctx[0] != 'agg':
-                    ck.finding('C11.R2', ENC + 'encap_frag', 'ctx-shape', 'encap_frag: returned context not recognisable')
+                    ck.finding(f'{P}.R2', ENC + 'encap_frag', 'ctx-shape', 'encap_frag: returned context not recognisable')
                 else:
                     nl = ctx[1][i_len]
                     if nl[0] == 'int' and not has_trunc(nl[1]) and w.store.entails_eq(nl[1], c + n):
                         ck.discharged += 1
                     else:
-                        ck.finding('C11.R2', ENC + 'encap_frag', 'advance', f"encap_frag: returned context position {nl[1].pretty() if nl[0]=='int' else '?'} is not old position + payload bytes ({(c + n).pretty()})")
+                        ck.finding(f'{P}.R2', ENC + 'encap_frag', 'advance', f"encap_frag: returned context position {nl[1].pretty() if nl[0]=='int' else '?'} is not old position + payload bytes ({(c + n).pretty()})")
                     if ctx[1][i_fid] == ('int', env['frag_id']) and ctx[1][i_crc] == ('int', env['crc']):
                         ck.discharged += 1
                     else:
-                        ck.finding('C11.R2', ENC + 'encap_frag', 'id-crc-changed', 'encap_frag: returned context does not carry the fragment id / CRC of the input context')
+                        ck.finding(f'{P}.R2', ENC + 'encap_frag', 'id-crc-changed', 'encap_frag: returned context does not carry the fragment id / CRC of the input context')
                 # R3 an intermediate packet is only produced when the end packet is impossible
                 if w.store.satisfiable_with(*end_possible):
-                    ck.finding('C11.R3', ENC + 'encap_frag', 'intermediate-although-end-fits', 'encap_frag: an intermediate packet can be produced although the final packet would fit the buffer and the 12-bit length')
+                    ck.finding(f'{P}.R3', ENC + 'encap_frag', 'intermediate-although-end-fits', 'encap_frag: an intermediate packet can be produced although the final packet would fit the buffer and the 12-bit length')
                 else:
                     ck.discharged += 1
                 ck.sample({'kind': 'Intermediate', 'payload': n.pretty(), 'new_position': ctx[1][i_len][1].pretty() if ctx and ctx[1][i_len][0] == 'int' else '?'})
@@ -81,10 +81,10 @@ def run(ck):
                 if all(w.store.entails(x) for x in end_possible):
                     ck.discharged += 1
                 else:
-                    ck.finding('C11.R3', ENC + 'encap_frag', 'end-guard', 'encap_frag: the end packet is produced outside its guard (buffer >= remaining + 7 and remaining + 5 <= 4095)')
+                    ck.finding(f'{P}.R3', ENC + 'encap_frag', 'end-guard', 'encap_frag: the end packet is produced outside its guard (buffer >= remaining + 7 and remaining + 5 <= 4095)')
                 ck.sample({'kind': 'End', 'gse_len': g[1].pretty()})
             else:
-                ck.finding('C11.R3', ENC + 'encap_frag', f"kind:{part[0]}", f"encap_frag emits a {part[0]} packet")
+                ck.finding(f'{P}.R3', ENC + 'encap_frag', f"kind:{part[0]}", f"encap_frag emits a {part[0]} packet")
         for e in errs:
             n_err += 1
             ck.obligations += 1
@@ -97,16 +97,16 @@ def run(ck):
                 if w.store.satisfiable_with(le(Lin.c(7), B), le(c, P)):
                     bad.append('the buffer has 7 bytes or more')
                 if bad:
-                    ck.finding('C11.R3', ENC + 'encap_frag', 'spurious-size-error', f"encap_frag: ErrorSizeBuffer is returned although {' / '.join(bad)}")
+                    ck.finding(f'{P}.R3', ENC + 'encap_frag', 'spurious-size-error', f"encap_frag: ErrorSizeBuffer is returned although {' / '.join(bad)}")
                 else:
                     ck.discharged += 1
             elif e == 'ErrorPduLength':
                 if w.store.satisfiable_with(le(c, P)):
-                    ck.finding('C11.R3', ENC + 'encap_frag', 'spurious-pdu-length-error', 'encap_frag: ErrorPduLength although the context lies inside the PDU')
+                    ck.finding(f'{P}.R3', ENC + 'encap_frag', 'spurious-pdu-length-error', 'encap_frag: ErrorPduLength although the context lies inside the PDU')
                 else:
                     ck.discharged += 1
             else:
-                ck.finding('C11.R3', ENC + 'encap_frag', f"error:{e}", f"encap_frag returns {e}")
+                ck.finding(f'{P}.R3', ENC + 'encap_frag', f"error:{e}", f"encap_frag returns {e}")
     ck.rule('C11 intermediate returns of encap_frag', n_int, 1)
     ck.rule('C11 end returns of encap_frag', n_end, 1)
     ck.rule('C11 error returns of encap_frag', n_err, 2)
@@ -117,8 +117,8 @@ def run(ck):
             npdu += 1
             W = row['W']
             if not W.store.entails_eq(row['src'][1], c) or not W.store.entails_eq(row['src'][2], row['len']) or not W.store.entails(le(c + row['len'], P)):
-                ck.finding('C11.R2', ENC + 'encap_frag', 'payload-window', f"encap_frag: payload is not pdu[position .. position+n) (source starts at {row['src'][1].pretty()})", row['site'])
-    ck.rule('C11.R2 payload copies of encap_frag', npdu, 2)
+                ck.finding(f'{P}.R2', ENC + 'encap_frag', 'payload-window', f"encap_frag: payload is not pdu[position .. position+n) (source starts at {row['src'][1].pretty()})", row['site'])
+    ck.rule(f'{P}.R2 payload copies of encap_frag', npdu, 2)
     # ------------------------------------------------ first fragment
     for wname in ('encap', 'encap_ext'):
         b = analyse_writer(ck, ENC + wname, extra=c09.ENCCFG)
@@ -134,23 +134,28 @@ def run(ck):
                     wr = [x for x in brows if x['part'] == part and x['src'][0] == 'pdu']
                     nl = ctx[1][i_len] if ctx is not None and ctx[0] == 'agg' else None
                     if nl is None or nl[0] != 'int' or has_trunc(nl[1]):
-                        ck.finding('C11.R2', ENC + wname, 'first-context-truncated', f"{wname}: context of a first fragment went through a lossy cast")
+                        ck.finding(f'{P}.R2', ENC + wname, 'first-context-truncated', f"{wname}: context of a first fragment went through a lossy cast")
                         continue
                     # the context counts exactly the payload bytes of some pdu copy of this partition
                     if any(w.store.entails_eq(nl[1], x['len']) or x['W'].store.entails_eq(nl[1], x['len']) for x in wr):
                         ck.discharged += 1
                     else:
-                        ck.finding('C11.R2', ENC + wname, 'first-context', f"{wname}: context of the first fragment ({nl[1].pretty()}) is not the number of payload bytes written")
+                        ck.finding(f'{P}.R2', ENC + wname, 'first-context', f"{wname}: context of the first fragment ({nl[1].pretty()}) is not the number of payload bytes written")
                     cv = ghost(w, 'crc_val')
                     if ctx[1][i_fid] == ('int', benv['frag_id']) and cv is not None and cv[0] == 'int' and ctx[1][i_crc][0] == 'int' and w.store.entails_eq(ctx[1][i_crc][1], cv[1]):
                         ck.discharged += 1
                     else:
-                        ck.finding('C11.R2', ENC + wname, 'first-id-crc', f"{wname}: context of the first fragment does not hold the fragment id passed / the CRC computed")
+                        ck.finding(f'{P}.R2', ENC + wname, 'first-id-crc', f"{wname}: context of the first fragment does not hold the fragment id passed / the CRC computed")
             for e in errs:
                 if e == 'ErrorSizeBuffer' and wname == 'encap':
                     if w.store.satisfiable_with(le(Lin.c(13), benv['B'])):
-                        ck.finding('C11.R5', ENC + wname, 'first-threshold', 'encap: ErrorSizeBuffer although the buffer has 13 bytes or more')
-        ck.rule(f'C11.R2 first-fragment returns of {wname}', nf, 3)
+                        ck.finding(f'{P}.R5', ENC + wname, 'first-threshold', 'encap: ErrorSizeBuffer although the buffer has 13 bytes or more')
+        ck.rule(f'{P}.R2 first-fragment returns of {wname}', nf, 3)
+    return None
+
+
+def run(ck):
+    rules(ck)
     ck.assumptions += ['premise of the property for continuation calls: the PDU fits the 16-bit total length (len(pdu) <= 65535); with a longer PDU and a hand-made context the u16 position wraps',
                        'the bound "(remaining + 1) calls with buffers of 7 bytes or more" is the paper corollary of R1 (progress), R3 (end as soon as it fits) and R5 (no size error with 7 bytes or more)']
     return ck.finish(
